@@ -1,5 +1,5 @@
 """C05 — an exhausted query stays exhausted."""
-from solver import (Solver, goal_kinds, real_calls, is_none, some_payload, str_cell, const_false, const_true,
+from solver import (outcome_of, Solver, goal_kinds, real_calls, is_none, some_payload, str_cell, const_false, const_true,
                     node_field_writes, NODE_TY)
 from sym import Walker, strip, show, mentions
 from facts import fmt_rv
@@ -56,9 +56,7 @@ def run(ctx):
         for i, e in enumerate(ev):
             if e["k"] == "call" and e["callee"] == E.path and strip(e["args"][0]) == child:
                 res = e["result"]
-                failed = any(x["k"] == "branch" and x["cond"][0] != "variant" and mentions(x["cond"], lambda t: t == res)
-                             and x["value"] is False for x in ev[i:]) or \
-                    any(c == ("variant", res) and v == "None" for c, v, bb in p.decisions)
+                failed = outcome_of(p, res) == "None"
                 returned = p.end == "return" and p.ret == res
                 if failed and not returned:
                     n_a += 1
@@ -81,8 +79,8 @@ def run(ctx):
                 # index argument is the node's rule_index
                 idx = strip(e["args"][2])
                 base = idx
-                while base[0] == "field" and base[2] == "0" and base[1][0] == "binop":
-                    base = strip(base[1][2])
+                while base[0] == "binop" and base[1] in ("Add", "Sub"):
+                    base = strip(base[2])
                 if base != ("field", sn, "rule_index"):
                     b_ok, b_why = False, "get_rule is indexed by %s, not the node's rule_index" % show(idx)
                 last = i
@@ -121,15 +119,16 @@ def run(ctx):
             if f in CONSTRUCTION_ONLY:
                 bad = (b, s, "written outside the node constructors")
             elif f == "rule_index":
-                okv = rv is not None and rv["k"] == "use" and rv["op"]["k"] in ("move", "copy") and b.path == E.path
+                okv = rv is not None and b.path == E.path and (
+                    (rv["k"] == "use" and rv["op"]["k"] in ("move", "copy")) or (rv["k"] == "binop" and rv["op"] == "Add"))
                 if okv:
                     # the stored value must be rule_index + 1 (checked on paths)
                     for p in ps:
                         for e in p.events:
                             if e["k"] == "write" and e["place"] == ("field", sn, "rule_index"):
                                 v = strip(e["value"])
-                                if not (v[0] == "field" and v[1][0] == "binop" and v[1][1] in ("AddWithOverflow", "Add") and
-                                        strip(v[1][2]) == ("field", sn, "rule_index") and v[1][3][3] == 1):
+                                if not (v[0] == "binop" and v[1] == "Add" and
+                                        strip(v[2]) == ("field", sn, "rule_index") and v[3][0] == "const" and v[3][3] == 1):
                                     okv = False
                 if not okv:
                     bad = (b, s, "rule_index is assigned %s (only `+= 1` in the solver entry is allowed)" % txt)
@@ -201,11 +200,7 @@ def run(ctx):
             n += 1
             last = searches[-1]
             res = last["result"]
-            exhausted = any(c == ("variant", res) and v == "None" for c, v, bb in p.decisions) or \
-                any(e["k"] == "branch" and e["cond"][0] != "variant" and mentions(e["cond"], lambda t: t == res) and
-                    ((e["cond"][1].endswith("is_some") and e["value"] is False) or
-                     (e["cond"][1].endswith("is_none") and e["value"] is True)) for e in p.events if e["k"] == "branch"
-                    and e["cond"][0] == "call")
+            exhausted = outcome_of(p, res) == "None"
             if exhausted:
                 continue
             # the last sub-search had an answer, yet the node reports None: must be latched (one-shot flag cleared
